@@ -123,12 +123,13 @@ for ty, ls, q in (("u8", (0, 1, 3, 6), (0, 3)), ("u16", (0, 1, 2, 3, 5), (0, 1, 
 for ty in ("u8", "u16", "u32"):
     _c18.append(H("c18_vec_%s_cap" % ty, 1500, "quick", "Vec<%s>::get_sig on a vector whose capacity exceeds its length (stale spare capacity): identity == the len elements only" % ty, "length 2, spare capacity 2-3"))
 _c18.append(H("c18_string_utf8", 1500, "quick", "String::get_sig == UTF-8 bytes for two symbolic characters up to U+D7FF (1-3 bytes each)", "2 chars"))
+_c18.append(H("c18_string_fixed", 900, "quick", "String::get_sig == UTF-8 bytes for the fixed strings \"\", \"a\", \"\\u{e9}\", \"a\\u{e9}\\u{20ac}\" (concrete content: stays decidable for iterator-based implementations)", "4 fixed strings, 0..6 bytes"))
 _c18.append(H("c18_string_n3", 900, "quick", "String::get_sig == UTF-8 bytes (ASCII content)", "len 0..=3 symbolic"))
 SPECS["C18"] = dict(
     level="model_checking", harnesses=_c18,
     functions=["probminhasher::sig::Sig::get_sig for u8,u16,u32,u64,i16,i32,Vec<u8>,Vec<u16>,Vec<u32>,String"],
-    bounds={"quick": "scalars: all values; vectors: each length in 0..=2 (u16,u32) / {0,3} (u8), all element values; strings: symbolic length 0..=3", "thorough": "vectors: every length up to 6 (u8) / 5 (u16) / 4 (u32)"},
-    outside="longer vectors (the code is length-uniform: one clone/copy of len*size bytes); non-ASCII string content",
+    bounds={"quick": "scalars: all values; vectors: each length in 0..=2 (u16,u32) / {0,3} (u8), all element values; strings: symbolic ASCII content of length 0..=3, two symbolic characters below U+D800, four fixed strings with 1-, 2-, 3-byte characters", "thorough": "vectors: every length up to 6 (u8) / 5 (u16) / 4 (u32)"},
+    outside="longer vectors (the code is length-uniform: one clone/copy of len*size bytes); string content beyond the listed instances (more than two non-ASCII characters, surrogate-range neighbours, 4-byte characters)",
     assumptions=["CBMC's memory model: pointer validity, bounds, double free, free of non-heap or foreign object are checked; allocator alignment of the deallocation layout is not"],
     not_decided=[],
     level_text="Bounded model checking with CBMC's pointer and allocation checks: for every value / every vector up to the length bound the bytes are the native-endian representation, equal values give equal bytes and different values different bytes, the argument is intact, and every allocation is freed exactly once (no use after free, no double free).",
